@@ -376,7 +376,8 @@ func (x *Exec) contractCall(st *State, key string, fc *FuncContract, c *ssa.Call
 	for _, e := range fc.Ensures {
 		t, err := x.specBool(ectx, e.E)
 		if err != nil {
-			if strings.Contains(e.Src, "rangeindex") || strings.Contains(e.Src, "local(") {
+			if strings.Contains(e.Src, "rangeindex") || strings.Contains(e.Src, "local(") || strings.Contains(err.Error(), "unknown identifier") || strings.Contains(err.Error(), "only defined after") {
+				x.skippedEnsures[key+"#"+e.Label] = true
 				continue // clause with an explicit body-local witness: meaningful only inside the callee, not assumed by callers
 			}
 			return nil, fmt.Errorf("%s: ensures of %s at call: %v", e.Where, key, err)
